@@ -83,15 +83,17 @@ class StatementSplitter:
                 return -1 if self._is_create else 0
             return 0
 
-        if (unified in ('IF', 'FOR', 'WHILE', 'CASE')
+        # FOR opens nothing by itself (CURSOR FOR, HANDLER FOR, FOR UPDATE,
+        # FOR EACH ROW): the loop of FOR ... LOOP is opened by its LOOP
+        if (unified in ('IF', 'WHILE', 'CASE')
                 and self._is_create and self._begin_depth > 0):
             if unified == 'CASE':
                 if after_end:
                     # END CASE: the END has closed the CASE statement
                     return 0
                 self._case_depth += 1
-            elif unified != 'IF':
-                # FOR ... LOOP and WHILE ... LOOP end with END LOOP
+            elif unified == 'WHILE':
+                # WHILE ... LOOP ends with END LOOP
                 self._loop_pending = True
             return 1
 
